@@ -34,6 +34,15 @@ fn main() {
         "probe" => probe::run(&args[2]),
         "probe-compile" => probe::compile(&args[2]),
         "probe-roundtrip" => probe::roundtrip(&args[2]),
+        "c12-grammar-source" => {
+            // tx3v c12-grammar-source <replay file>: the text the grammar_derived family writes for a tape
+            let v: serde_json::Value = serde_json::from_str(&std::fs::read_to_string(&args[2]).expect("file")).expect("json");
+            let tape: Vec<u16> = v["tape"].as_array().expect("tape").iter().map(|x| x.as_u64().unwrap() as u16).collect();
+            let mut t = tape::Tape::new(&tape);
+            let depth = 4 + t.pick(9);
+            let (src, _) = tx3v::fegen::from_grammar(checks::c12::grammar(), &mut t, depth);
+            print!("{}", src);
+        }
         "fuzz-corpus" => {
             // tx3v fuzz-corpus <target> <dir>: small valid seeds for a libFuzzer campaign
             let dir = &args[3];
